@@ -45,7 +45,7 @@ def run(ctx):
     # prefill set drained only when its priority is the queue top or above it: drain_prefill call sites in take_tasks
     tt = prog.body(TQ + 'take_tasks')
     dp = tt.call_blocks(T + 'scheduler::taskqueue::drain_prefill')
-    ctx.floor('R15.1', len(dp), 2, 'drain_prefill calls')
+    ctx.floor('R15.1', len(dp), 1, 'drain_prefill calls')
     eqs = [(bi, t) for bi, t, c in tt.calls() if bi in tt.reachable() and (callee_decl(t) or '').endswith('PartialEq::eq')]
     ctx.ob('R15.1', 'take_tasks|prefill vs queue top compared', bool(eqs), 'the prefill priority is compared with the queue top before deciding the order', tt.loc(eqs[0][0]) if eqs else tt.loc())
     if eqs:
